@@ -154,7 +154,20 @@ SameCases(e1) ==
   {[op |-> "OpBF", tag |-> "bf", e1 |-> e1, e2 |-> p[2], a |-> OneVar(S, o), b |-> OneVar(S, o), fs |-> <<>>, fshare |-> 1, sameobj |-> so] :
      p \in {q \in SamePairs : q[1] = e1}, S \in SupportsOn(E4), o \in 0..2, so \in {0, 1}}
 
+\* size sweep (Domains!SweepGrid): operator application and forms on supports with every number of intervals
+SweepExprs == {Id, Dn(1), Xn(1), SplLeaf, B2("Sum", Dn(2), Xn(1))}
+SweepFactor(g, e) == IF HasSpl(e) THEN <<OneVar(IF Len(g) >= 4 THEN Sup(g, 1, Len(g) - 1) ELSE SupWhole(g), VoOf(e))>> ELSE <<>>
+SweepCases(e) ==
+  UNION {LET g == SweepGrid(n)
+             W == {SupWhole(g)} \cup (IF n >= 3 THEN {Sup(g, 1, n + 1)} ELSE {})
+         IN {[op |-> "OpApply", tag |-> IF e \in Prims THEN "prim" ELSE "expr", ast |-> e, a |-> OneVar(S, o), fs |-> SweepFactor(g, e), fshare |-> 1] :
+               S \in W, o \in {1, 2}}
+            \cup {[op |-> "OpBF", tag |-> "bf", e1 |-> e, e2 |-> e2, a |-> OneVar(SupWhole(g), 2), b |-> OneVar(Sb, 1), fs |-> SweepFactor(g, e), fshare |-> 1] :
+                    e2 \in {Id, Dn(1)}, Sb \in W \cup {Sup(g, (n + 1) \div 2, n + 1)}} :
+         n \in SweepSizes}
+
 CasesFor(e) ==
+  (IF e \in SweepExprs THEN SweepCases(e) ELSE {}) \cup
   (IF e \in SameFirst THEN SameCases(e) ELSE {}) \cup
   (IF e \in Prims THEN PrimCases(e) ELSE {})
   \cup (IF e \in Exprs THEN ExprCases(e) ELSE {})
